@@ -78,6 +78,21 @@ pub struct ScenarioD1 {
     /// forward_to variant: drop the receiver at this instant
     pub drop_rx_at: Option<u64>,
     pub merge: Option<MergeSc>,
+    /// mock-client sub-batch: the connections are the account streams of the real `MockExecution`
+    /// client over its broadcast channel, which a consumer that falls behind overflows
+    #[serde(default)]
+    pub overflow: Option<OverflowSc>,
+}
+
+#[derive(Clone, Debug, Serialize, Deserialize)]
+pub struct OverflowSc {
+    pub capacity: usize,
+    /// events published and consumed one by one first
+    pub before: usize,
+    /// events published while the consumer does not poll
+    pub burst: usize,
+    /// events published once the stream has gone quiet again
+    pub after: usize,
 }
 
 #[derive(Debug, Clone, PartialEq)]
@@ -94,6 +109,19 @@ enum Out {
 }
 
 pub struct SimD1;
+
+fn o_cap(sc: &ScenarioD1) -> usize {
+    sc.overflow.as_ref().map_or(0, |o| o.capacity)
+}
+fn o_before(sc: &ScenarioD1) -> usize {
+    sc.overflow.as_ref().map_or(0, |o| o.before)
+}
+fn o_burst(sc: &ScenarioD1) -> usize {
+    sc.overflow.as_ref().map_or(0, |o| o.burst)
+}
+fn o_after(sc: &ScenarioD1) -> usize {
+    sc.overflow.as_ref().map_or(0, |o| o.after)
+}
 
 struct ScriptState {
     next: usize,
@@ -211,6 +239,7 @@ impl Sim for SimD1 {
             "init_failures_terminal_and_non_terminal_errors",
             "merge_two_streams",
             "sockets_through_stream_builders",
+            "mock_client_account_connection_overflows",
         ]
     }
     fn default_runs(&self) -> (u64, u64) {
@@ -229,7 +258,16 @@ impl Sim for SimD1 {
         let mut attempts = Vec::new();
         let mut merge_sc = None;
         let mut sockets = Vec::new();
-        if sub == 3 {
+        let mut overflow = None;
+        if sub == 4 {
+            let capacity = *rng.pick(&[1usize, 2, 4, 8, 16]);
+            overflow = Some(OverflowSc {
+                capacity,
+                before: rng.usize(4),
+                burst: *rng.pick(&[0usize, 1, capacity, capacity + 1, 2 * capacity + 1, 3 * capacity + 2]),
+                after: 1 + rng.usize(4),
+            });
+        } else if sub == 3 {
             let n_sock = 2 + rng.usize(2);
             for _ in 0..n_sock {
                 let n_conn = 1 + rng.usize(4);
@@ -303,6 +341,7 @@ impl Sim for SimD1 {
             tokio_seed: rng.next_u64(),
             drop_rx_at: if sub == 1 && rng.chance(1, 8) { Some(rng.below(300)) } else { None },
             merge: merge_sc,
+            overflow,
         }
     }
 
@@ -521,6 +560,139 @@ impl Sim for SimD1 {
                     if sc.sockets.iter().filter(|s| s.exchange.min(1) == e).count() > 1 {
                         stats.probe("sockets_share_exchange_channel");
                     }
+                }
+                break;
+            }
+            return Outcome { violation, stats, log_hash: log.hash(), signature: log.signature(), log: log.lines };
+        }
+
+        if let Some(o) = &sc.overflow {
+            // ------------------------------------------ MockExecution account stream, overflowing
+            use barter_execution::{
+                AccountEvent, AccountEventKind, UnindexedAccountEvent,
+                balance::{AssetBalance, Balance},
+                client::{
+                    ExecutionClient,
+                    mock::{MockExecution, MockExecutionClientConfig},
+                },
+                exchange::mock::request::MockExchangeRequest,
+            };
+            use barter_integration::snapshot::Snapshot;
+            use rust_decimal::Decimal;
+            let o = o.clone();
+            let (initial_ms, multiplier, max_ms) = (sc.initial_ms, sc.multiplier, sc.max_ms);
+            let outs: Result<Vec<Out>, String> = rt.block_on(async move {
+                let (event_tx, event_rx) = tokio::sync::broadcast::channel::<UnindexedAccountEvent>(o.capacity.max(1));
+                let (request_tx, _request_rx) = tokio::sync::mpsc::unbounded_channel::<MockExchangeRequest>();
+                let client = <MockExecution<_> as ExecutionClient>::new(MockExecutionClientConfig {
+                    mocked_exchange: ExchangeId::Mock,
+                    clock: || crate::world::ts(0),
+                    request_tx,
+                    event_rx,
+                });
+                let c2 = client.clone();
+                let key = StreamKey::new_general("account_stream", ExchangeId::Mock);
+                let stream = init_reconnecting_stream(move || {
+                    let c = c2.clone();
+                    async move { c.account_stream(&[], &[]).await }
+                })
+                .await
+                .map_err(|e| format!("first account_stream failed: {e:?}"))?
+                .with_reconnect_backoff(ReconnectionBackoffPolicy { backoff_ms_initial: initial_ms, backoff_multiplier: multiplier, backoff_ms_max: max_ms }, key)
+                .with_reconnection_events(ExchangeId::Mock);
+                let mut stream = Box::pin(stream);
+                let publish = |id: u32| {
+                    let _ = event_tx.send(AccountEvent {
+                        exchange: ExchangeId::Mock,
+                        kind: AccountEventKind::BalanceSnapshot(Snapshot(AssetBalance {
+                            asset: "usdt".into(),
+                            balance: Balance::new(Decimal::from(id), Decimal::from(id)),
+                            time_exchange: crate::world::ts(id as i64),
+                        })),
+                    });
+                };
+                let mut outs: Vec<Out> = Vec::new();
+                let mut id = 0u32;
+                macro_rules! drain {
+                    ($quiet_ms:expr) => {
+                        while let Ok(Some(ev)) = tokio::time::timeout(Duration::from_millis($quiet_ms), stream.next()).await {
+                            outs.push(match ev {
+                                Event::Reconnecting(_) => Out::Reconnecting,
+                                Event::Item(e) => match e.kind {
+                                    AccountEventKind::BalanceSnapshot(b) => Out::Item(b.0.balance.total.to_string().parse().unwrap_or(0)),
+                                    _ => Out::Err(0),
+                                },
+                            });
+                        }
+                    };
+                }
+                for _ in 0..o.before {
+                    id += 1;
+                    publish(id);
+                    drain!(1);
+                }
+                for _ in 0..o.burst {
+                    id += 1;
+                    publish(id);
+                }
+                // (long enough for a re-initialisation to complete)
+                drain!(50);
+                for _ in 0..o.after {
+                    id += 1;
+                    publish(id);
+                    drain!(1);
+                }
+                drain!(50);
+                Ok(outs)
+            });
+            #[allow(clippy::never_loop)]
+            'chk: loop {
+                let outs = match outs {
+                    Ok(v) => v,
+                    Err(e) => {
+                        fail!('chk, "R4_stream_ended_by_itself", 0, "{e}");
+                        break;
+                    }
+                };
+                log.line(|| format!("capacity {} before {} burst {} after {} -> {:?}", o_cap(sc), o_before(sc), o_burst(sc), o_after(sc), outs));
+                let total = (o_before(sc) + o_burst(sc) + o_after(sc)) as u32;
+                stats.steps += total as u64;
+                if o_burst(sc) > o_cap(sc) {
+                    stats.fault("consumer_falls_behind_broadcast_overflows");
+                }
+                let mut last: Option<u32> = None;
+                let mut notice_since_last = false;
+                for (k, out) in outs.iter().enumerate() {
+                    match out.clone() {
+                        Out::Reconnecting => notice_since_last = true,
+                        Out::Err(_) => fail!('chk, "R1_items_once_in_order", k, "unexpected account event kind in {outs:?}"),
+                        Out::Item(v) => {
+                            if last.is_some_and(|l| v <= l) {
+                                fail!('chk, "R1_items_once_in_order", k, "event {v} delivered after event {:?}: {outs:?}", last);
+                            }
+                            let gap = last.map_or(v > 1, |l| v > l + 1);
+                            if gap && !notice_since_last {
+                                fail!('chk, "R1_items_once_in_order", k, "events between {:?} and {v} were published on the connection and never delivered, yet the connection did not end (no reconnecting notice): {outs:?}", last);
+                            }
+                            if gap {
+                                stats.probe("lagged_connection_ended_with_notice");
+                            }
+                            last = Some(v);
+                            notice_since_last = false;
+                        }
+                    }
+                }
+                // whatever is published once the stream is quiet again is delivered
+                for v in (total - o_after(sc) as u32 + 1)..=total {
+                    if !outs.contains(&Out::Item(v)) {
+                        fail!('chk, "R1_items_once_in_order", 0, "event {v}, published while the connection was up and the consumer polling, was not delivered: {outs:?}");
+                    }
+                }
+                if o_burst(sc) <= o_cap(sc) && outs.iter().filter(|x| matches!(x, Out::Item(_))).count() as u32 != total {
+                    fail!('chk, "R1_items_once_in_order", 0, "nothing overflowed (burst {} <= capacity {}), yet only {:?} of {total} events were delivered", o_burst(sc), o_cap(sc), outs);
+                }
+                if o_burst(sc) <= o_cap(sc) && outs.contains(&Out::Reconnecting) {
+                    fail!('chk, "R2_one_notice_per_drop", 0, "a reconnecting notice although no connection dropped: {outs:?}");
                 }
                 break;
             }
@@ -861,6 +1033,9 @@ impl Sim for SimD1 {
     }
 
     fn shrink_len(&self, sc: &ScenarioD1) -> usize {
+        if sc.overflow.is_some() {
+            return 0;
+        }
         if !sc.sockets.is_empty() {
             return sc.sockets.len();
         }
